@@ -97,6 +97,16 @@ def showFRet : FRet Val → String
   | .decline => "nil"
   | .fail r => "e" ++ (if r then "1" else "0")
 
+/-- position of the primary in `MultiClient.clients`: 0 as configured; 1 when the harness put the
+store under test second and switched to it through the runtime configuration (wrap code 3). -/
+def Spec.primaryPos (sp : Spec) : Nat := if sp.multi == 3 then 1 else 0
+
+/-- how the harness labels a gated mirror attempt: `min=` when it was sent to a store that is not the
+primary, `minP=` when it was sent to the primary. The model derives the target from
+`mirrorTargets` over the two clients. -/
+def Spec.mirrorLabel (sp : Spec) : String :=
+  if (mirrorTargets [0, 1] sp.primaryPos).contains sp.primaryPos then "minP=" else "min="
+
 def cfgOf (sp : Spec) : Cfg Val := { budget := sp.budget, sbudget := 10, merge := Val.merge }
 
 /-- initial system: the harness writes the initial values with one uncontended CAS on the primary. -/
@@ -122,7 +132,7 @@ def view (sp : Spec) (s : Sys Val) (k : Nat) : String := showVal (s.pri.val (sp.
 
 /-- after the caller was released: it runs until it blocks again (in `f` of the primary loop, or in
 the gated function of the mirror write) or returns. -/
-def afterRelease (cfg : Cfg Val) (c : Nat) (s : Sys Val) (done : Option Bool) : Sys Val × String :=
+def afterRelease (sp : Spec) (cfg : Cfg Val) (c : Nat) (s : Sys Val) (done : Option Bool) : Sys Val × String :=
   match s.ph c with
   | .reading .. =>
     let s' := next cfg s (.step c)
@@ -132,7 +142,7 @@ def afterRelease (cfg : Cfg Val) (c : Nat) (s : Sys Val) (done : Option Bool) : 
   | .mreading .. =>
     let s' := next cfg s (.step c)
     (s', match s'.ph c with
-      | .mholding _ _ _ _ inp' => "min=" ++ showVal inp'
+      | .mholding _ _ _ _ inp' => sp.mirrorLabel ++ showVal inp'
       | _ => "?")
   | _ => (s, if done == some true then "ok" else "err")
 
@@ -148,7 +158,7 @@ def simEvent (sp : Spec) (st : Sim) (c : Nat) : String × Sim :=
     match (sp.ops.getD c [])[j]? with
     | none => (s!"s{c}:nothing-to-start", st)
     | some op =>
-      let cl : Call Val := ⟨sp.mapped op.key, opF op ((c + 1) * 100 + j), sp.multi == 2⟩
+      let cl : Call Val := ⟨sp.mapped op.key, opF op ((c + 1) * 100 + j), sp.multi ≥ 2⟩
       let s1 := next cfg (next cfg s (.begin c cl)) (.step c)
       let res := match s1.ph c with
         | .holding _ _ _ _ inp => "in=" ++ showVal inp
@@ -160,12 +170,12 @@ def simEvent (sp : Spec) (st : Sim) (c : Nat) : String × Sim :=
     let done := match s1.log with
       | r :: _ => r.done
       | [] => none
-    let (s2, res) := afterRelease cfg c s1 done
+    let (s2, res) := afterRelease sp cfg c s1 done
     (s!"r{c}:{fret}:{res}:{view sp s2 k}", ⟨s2, st.nextOp⟩)
   | .mholding .. =>
     -- the mirror write; whatever happens to it, MultiClient.CAS returns the primary's nil
     let s1 := next cfg s (.step c)
-    let (s2, res) := afterRelease cfg c s1 (some true)
+    let (s2, res) := afterRelease sp cfg c s1 (some true)
     (s!"r{c}:m:{res}:{view sp s2 k}", ⟨s2, st.nextOp⟩)
   | _ => (s!"x{c}:caller-in-unexpected-phase", st)
 
@@ -242,7 +252,7 @@ def judgeEvent (sp : Spec) (st : JSt) (ev : String) : JSt :=
           -- the mirror write of a MultiClient: it must not touch the primary, and the call still succeeds
           let st := if after != before then addBad st "mirror-changed-primary" else st
           if res = "err" then addBad st "mirrored-call-failed-after-write" else st
-        else if fret.startsWith "w" ∧ (res = "ok" ∨ res.startsWith "min=") then
+        else if fret.startsWith "w" ∧ (res = "ok" ∨ res.startsWith "min") then
           -- a call that reports success and wrote: it must have applied f to the value left by the
           -- previous successful call, and what it leaves is what f returned
           let out := (fret.drop 3).toString
@@ -256,7 +266,7 @@ def judgeEvent (sp : Spec) (st : JSt) (ev : String) : JSt :=
         else st
       let st := { st with seen := setS st.seen key after }
       if res.startsWith "in=" then { st with inp := setS st.inp c (res.drop 3).toString, retries := st.retries + 1 }
-      else if res.startsWith "min=" then { st with mirrors := st.mirrors + 1 }
+      else if res.startsWith "min" then { st with mirrors := st.mirrors + 1 }
       else { st with ovl := st.ovl - 1, errs := st.errs + (if res = "err" then 1 else 0) }
   | _ => addBad st "unparsable-event"
 
